@@ -25,8 +25,9 @@ def run_model(lines, timeout=1800):
     if not ok: raise RuntimeError('model build failed:\n' + o[-4000:])
     rc, out = run([MODEL_BIN], input='\n'.join(lines) + '\n', timeout=timeout, env={'OCAMLRUNPARAM': 'l=8M'})
     res = []
-    for l in out.split('\n'):
-        if l.strip() == '': continue
+    outl = out.split('\n')
+    for l in outl[:len(lines)]:
+        if l.strip() == '': res.append([]); continue
         try: res.append([int(x) for x in l.split()])
         except ValueError: res.append(['ERR', l])
     while len(res) < len(lines): res.append(['CRASH'])
